@@ -75,10 +75,13 @@ def doctype(feats, secret, rng, root):
     if "param" in feats:
         decls.append(f'<!ENTITY % pe SYSTEM "file://{secret}.dtd">')
         decls.append("%pe;")
+    if "elemdecl" in feats:
+        decls.append(f"<!ELEMENT {root} ANY>")
+        decls.append(f"<!ATTLIST {root} verif CDATA #IMPLIED>")
     if "extdtd" in feats:
         ext_id = f' SYSTEM "file://{secret}.ext.dtd"'
     if not decls and not ext_id:
-        return "", ""
+        return (f"<!DOCTYPE {root}>\n" if "doctype" in feats else ""), ""
     body = (" [\n" + "\n".join(decls) + "\n]") if decls else ""
     return f"<!DOCTYPE {root}{ext_id}{body}>\n", ref
 
@@ -230,7 +233,7 @@ def run(ctx):
                         text = reshape(text, style["shape"], rng)
                         if enc != "utf-8" and "nul" in style["shape"]:
                             enc = "utf-8"
-                    ctx.case(key=(st["entry"], tuple(sorted(feats)), repr(style), enc), nontrivial=bool(feats),
+                    ctx.case(key=(st["entry"], tuple(sorted(feats)), repr(style), enc), nontrivial=bool(feats - {"doctype", "elemdecl"}) or bool(feats),
                              sample={"entry": st["entry"], "features": sorted(feats), "style": style, "spec_verdict": st["verdict"]}
                              if feats == {"extfile", "nested"} else None)
                     arm("secret-verif-xxe")
